@@ -22,7 +22,8 @@ Record PInv (n : N) (p : pstate) : Prop := mkPInv {
   i2 : forall b s v v', In (b, s, v) (m2a p) -> In (b, s, v') (m2a p) -> v = v';
   i3 : forall b s v, In (b, s, v) (m2a p) -> SafeAt n p s b v;
   i5 : forall a b lg, In (a, b, lg) (m1b p) ->
-         b <= maxBal p a /\ forall s c v, In (s, c, v) lg <-> (In (a, s, c, v) (votes p) /\ c < b) }.
+         b <= maxBal p a /\ (forall s c w, In (s, c, w) lg -> In (c, s, w) (m2a p)) /\
+         (forall s c w, In (a, s, c, w) (votes p) -> c < b -> exists c' w', In (s, c', w') lg /\ c <= c') }.
 
 Lemma PInv_init : forall n, PInv n p_init.
 Proof. intro n; constructor; cbn; intros; contradiction. Qed.
@@ -73,7 +74,7 @@ Qed.
 Theorem pstep_PInv : forall n p p', pstep n p p' -> PInv n p -> PInv n p'.
 Proof.
   intros n p p' H I. destruct I as [I1 I2 I3 I5].
-  destruct H as [b | a0 b0 Ha0 H1a Hlt | b0 s0 v0 logs Hfresh HQ Hlogs Hpick | a0 b0 s0 v0 Ha0 H2a Hle].
+  destruct H as [b | a0 b0 lg0 Ha0 H1a Hlt Hrep | b0 s0 v0 logs Hfresh HQ Hlogs Hpick | a0 b0 s0 v0 Ha0 H2a Hle].
   - (* P1a *)
     constructor; cbn [maxBal votes m1a m1b m2a]; auto.
   - (* P1b *)
@@ -83,8 +84,9 @@ Proof.
     + intros b s v H. eapply SafeAt_stable; [| | |apply I3; eauto]; cbn; auto.
       intro a. apply updf_ge. lia.
     + intros a b lg [E|H].
-      * inversion E; subst. rewrite updf_same. split; [lia|]. intros s c v. apply log_of_In.
-      * destruct (I5 _ _ _ H) as [A B]. split; auto.
+      * inversion E; subst. rewrite updf_same. split; [lia|]. destruct Hrep as [R1 R2]. split; auto.
+        intros s c w Hv _. apply (R2 s c w Hv).
+      * destruct (I5 _ _ _ H) as (A & B & C). split; auto.
         pose proof (updf_ge (maxBal p) a0 b0 a ltac:(lia)). lia.
   - (* P2a *)
     constructor; cbn [maxBal votes m1a m1b m2a]; auto.
@@ -98,20 +100,21 @@ Proof.
       inversion E; subst b s v; clear E.
       (* the new proposal is safe at b0 *)
       assert (forall a, In a (map fst logs) -> exists lg, In (a, lg) logs /\ b0 <= maxBal p a /\
-                forall s c v, In (s, c, v) lg <-> (In (a, s, c, v) (votes p) /\ c < b0)) as HL.
+                (forall s c w, In (s, c, w) lg -> In (c, s, w) (m2a p)) /\
+                (forall s c w, In (a, s, c, w) (votes p) -> c < b0 -> exists c' w', In (s, c', w') lg /\ c <= c')) as HL.
       { intros a Ha. apply in_map_iff in Ha. destruct Ha as ([a' lg] & E & Hin). cbn in E; subst a'.
         exists lg. split; [auto|]. apply I5. apply Hlogs; auto. }
       intros c Hc. cbn [maxBal votes].
       assert (forall a, In a (map fst logs) -> (forall w, ~ In (a, s0, c, w) (votes p)) -> wontvote p a s0 c) as WV.
-      { intros a Ha Hn. destruct (HL a Ha) as (lg & _ & Hb & _). split; auto. lia. }
+      { intros a Ha Hn. destruct (HL a Ha) as (lg & _ & Hb & _ & _). split; auto. lia. }
       destruct Hpick as [Hfree|(a1 & lg1 & c0 & Hin1 & Hv1 & Hmax)].
       * exists (map fst logs). split; auto. intros a Ha. right. apply WV; auto.
-        intros w Hw. destruct (HL a Ha) as (lg & Hl & _ & Hiff).
-        eapply (Hfree a lg c w); eauto. apply Hiff. split; auto.
+        intros w Hw. destruct (HL a Ha) as (lg & Hl & _ & _ & Hcov).
+        destruct (Hcov _ _ _ Hw Hc) as (c' & w' & Hin' & _).
+        eapply (Hfree a lg c' w'); eauto.
       * assert (In a1 (map fst logs)) as Ha1 by (apply in_map_iff; exists (a1, lg1); auto).
-        assert (In (a1, s0, c0, v0) (votes p) /\ c0 < b0) as [Hvote Hc0].
-        { destruct (I5 _ _ _ (Hlogs _ _ Hin1)) as [_ Hiff]. apply Hiff; auto. }
-        destruct (I1 _ _ _ _ Hvote) as (H2a0 & _ & _).
+        assert (In (c0, s0, v0) (m2a p)) as H2a0.
+        { destruct (I5 _ _ _ (Hlogs _ _ Hin1)) as (_ & Hm2a & _). apply Hm2a; auto. }
         destruct (N.lt_trichotomy c c0) as [Lt|[Eq|Gt]].
         -- (* below the highest reported ballot: inherit from the p2a of c0 *)
            apply (I3 _ _ _ H2a0 c Lt).
@@ -119,9 +122,11 @@ Proof.
            destruct (vote_dec (votes p) a s0 c0) as [(w & Hw)|Hn]; [|right; apply WV; auto].
            left. destruct (I1 _ _ _ _ Hw) as (H2aw & _ & _). rewrite (I2 _ _ _ _ H2a0 H2aw). auto.
         -- exists (map fst logs). split; auto. intros a Ha. right. apply WV; auto.
-           intros w Hw. destruct (HL a Ha) as (lg & Hl & _ & Hiff).
-           assert (In (s0, c, w) lg) as Hlg by (apply Hiff; split; auto).
-           specialize (Hmax a lg c w Hl Hlg). lia.
+           intros w Hw. destruct (HL a Ha) as (lg & Hl & _ & _ & Hcov).
+           destruct (Hcov _ _ _ Hw Hc) as (c' & w' & Hlg & Hle').
+           specialize (Hmax a lg c' w' Hl Hlg). lia.
+    + intros a b lg H. destruct (I5 _ _ _ H) as (A & B & C). split; auto. split; auto.
+      intros s c w Hin. right. apply B; auto.
   - (* P2b *)
     assert (forall a, maxBal p a <= updf (maxBal p) a0 b0 a) as Hm by (intro a; apply updf_ge; auto).
     constructor; cbn [maxBal votes m1a m1b m2a]; auto.
@@ -131,9 +136,8 @@ Proof.
     + intros b s v H. eapply SafeAt_stable; [| | |apply I3; eauto]; cbn [maxBal votes]; auto.
       * intros x Hx; right; auto.
       * intros a s' c w [E|Hw]; [inversion E; subst; right; auto|left; auto].
-    + intros a b lg H. destruct (I5 _ _ _ H) as [A B]. split; [specialize (Hm a); lia|].
-      intros s c v. rewrite B. split; [intros [X Y]; split; auto; right; auto|].
-      intros [[E|X] Y]; [|split; auto]. inversion E; subst. lia.
+    + intros a b lg H. destruct (I5 _ _ _ H) as (A & B & C). split; [specialize (Hm a); lia|]. split; auto.
+      intros s c w [E|X] Y; [|eapply C; eauto]. inversion E; subst. lia.
 Qed.
 
 Lemma psteps_PInv : forall n p p', psteps n p p' -> PInv n p -> PInv n p'.
@@ -191,8 +195,8 @@ Proof.
   - unfold preachable.
     eapply ps_step. eapply ps_step. eapply ps_step. eapply ps_step. eapply ps_step. eapply ps_step. apply ps_refl.
     + apply (P1a 3 _ 1).
-    + apply (P1b 3 _ 0 1); [vm_compute; reflexivity|cbn; auto|vm_compute; reflexivity].
-    + apply (P1b 3 _ 1 1); [vm_compute; reflexivity|cbn; auto|vm_compute; reflexivity].
+    + apply (P1b 3 _ 0 1 []); [vm_compute; reflexivity|cbn; auto|vm_compute; discriminate|split; cbn; intros; contradiction].
+    + apply (P1b 3 _ 1 1 []); [vm_compute; reflexivity|cbn; auto|vm_compute; discriminate|split; cbn; intros; contradiction].
     + apply (P2a 3 _ 1 0 7 [(1, []); (0, [])]); cbn.
       * intros w [].
       * split; [repeat constructor; cbn; intuition discriminate|]. split; [intros a [<-|[<-|[]]]; lia|cbn; lia].
